@@ -78,6 +78,11 @@ def gen_number(rng):
     r = rng.random()
     if r < 0.06:
         return pow2_edge(rng)
+    if r < 0.09:
+        # long integer mantissa (around the 19-digit window / 2^64) with an exponent in either case
+        D = rng.choice(["9999999999999999999", "10000000000000000000", "18446744073709551615", "18446744073709551616",
+                        "12345678901234567890", "100000000000000000000", str(rng.randrange(10 ** 18, 10 ** 21))])
+        return ("-" if rng.random() < 0.3 else "") + D + rng.choice("eE") + rng.choice(["", "+", "-"]) + str(rng.randrange(0, 4))
     if r < 0.35:
         return str(rng.choice([0, 1, 7, 10, 99, 255, 65535, 2 ** 31, 2 ** 32, 2 ** 53, 2 ** 63 - 1, 2 ** 63, 2 ** 63 + 1, 2 ** 64 - 1, rng.randrange(0, 10 ** rng.randrange(1, 19))]))
     if r < 0.55:
